@@ -341,6 +341,21 @@ let run_norm (proto : string) (su : string) (toks : string list) : string =
      | None -> "ok TOOBIG"
      | Some d -> "ok " ^ string_of_bytes d)
 
+(* C05's theorem: decode, reify the result, encode it again (NA outside the theorem's fragment) *)
+let run_reenc (proto : string) (pd : string) (su : string) (hex : string) : string =
+  let ecfg = { e_proto = z_of_dec proto; e_strict = (su = "1"); e_isprint = is_print_hi; e_fmtg = fmt_g } in
+  let dcfg = { c_pydict = (pd = "1"); c_strict = (su = "1"); c_load = None } in
+  match decode dcfg init_state (bytes_of_hex hex) with
+  | ((Ok v, _), _) ->
+    (match erase v, reify v with
+     | Some t, Some r when fits_proto ecfg t ->
+       let (ws, res) = run_w (encode ecfg r) None in
+       (match res with
+        | EOk -> "ok " ^ hex_of_blist (List.concat ws)
+        | _ -> "encfail")
+     | _ -> "NA")
+  | _ -> "NA"
+
 let parse_one (toks : string list) : val0 * string list =
   parse_val toks
 
@@ -497,6 +512,7 @@ let handle (line : string) : string =
      | ((r, _), _) -> "decode " ^ show_res (fun _ -> "") r)
   | "enc" :: proto :: su :: failat :: rest -> run_enc proto su failat rest
   | "norm" :: proto :: su :: rest -> run_norm proto su rest
+  | "reenc" :: proto :: pd :: su :: rest -> run_reenc proto pd su (match rest with [h] -> h | _ -> "")
   | "dict" :: rest -> run_dict rest
   | "lookup" :: n :: rest -> run_lookup n rest
   | "declong" :: rest ->
